@@ -589,3 +589,78 @@ UNITS["v_read_only"] = dict(
              safety_id="C15.verify_mutable.safety"),
     ],
 )
+
+# ------------------------------------------------------------------------------------------------
+UNITS["v_constants"] = dict(
+    prop=["C12"], tier="q", prelude=["interp.rs", "typestate.rs"], native_witness={"C12": ["constants"]},
+    fns=[
+        dict(id="details_merge", file="src/compiler/type_def.rs", impl="impl Details", name="merge",
+             orig_sig="fn merge(self, other: Self) -> Self",
+             wrap=("impl Details {", "}"), sig="pub fn merge(self, other: Details) -> (r: Details)",
+             rewrites=[dict(**{"from": "self.value == other.value", "to": "values_equal(&self.value, &other.value)", "why": "derived PartialEq on Option<Value>"})],
+             ensures=[("C12.details_merge.keeps_only_agreed", "merging two possible states keeps a constant only when both sides carry that same constant",
+                       "r.value is Some ==> self.value == r.value && other.value == r.value")],
+             safety_id="C12.details_merge.safety"),
+        dict(id="variable_resolve_constant", file="src/compiler/expression/variable.rs", impl="impl Expression for Variable", name="resolve_constant",
+             orig_sig="fn resolve_constant(&self, state: &TypeState) -> Option<Value>",
+             wrap=("impl Variable {", "}"), sig="pub fn resolve_constant(&self, state: &TypeState) -> (r: Option<Value>)",
+             desugar=["and_then"],
+             ensures=[("C12.variable.constant_is_binding", "the constant the compiler uses for a variable is exactly the constant recorded in its binding",
+                       "r == const_of(*state, self.ident.id)")],
+             safety_id="C12.variable_resolve_constant.safety"),
+        dict(id="insert_type_def", file="src/compiler/expression/assignment.rs", impl="impl Target", name="insert_type_def",
+             orig_sig="fn insert_type_def(&self, state: &mut TypeState, new_type_def: TypeDef, value: Option<Value>)",
+             wrap=("impl ATarget {", "}"), sig="pub fn insert_type_def(&self, state: &mut TypeState, new_type_def: TypeDef, value: Option<Value>)",
+             rewrites=[dict(**{"from": "Some(Details { type_def, .. }) =>", "to": "Some(Details { type_def, value: _ }) =>", "why": "Verus pattern syntax for the ignored field"}),
+                       dict(**{"from": "new_type_def.kind().clone()", "to": "new_type_def.kind().clone()", "optional": True, "why": "identity"})],
+             ensures=[
+                 ("C12.assign.root_constant", "assigning a whole variable records exactly the constant of the right-hand side for that variable",
+                  "self is Internal && self->Internal_1.root ==> const_of(*final(state), self->Internal_0.id) == value"),
+                 ("C12.assign.path_drops_constant", "assigning below a variable (`x.a = e`) must not record e's constant as the constant of the whole variable x",
+                  "self is Internal && !self->Internal_1.root ==> const_of(*final(state), self->Internal_0.id) is None"),
+                 ("C12.assign.frame", "no other variable's constant changes",
+                  "forall|id: u64| !(self is Internal && self->Internal_0.id == id) ==> #[trigger] const_of(*final(state), id) == const_of(*old(state), id)"),
+             ],
+             safety_id="C12.insert_type_def.safety"),
+        dict(id="del_type_info", file="src/stdlib/del.rs", impl="impl Expression for DelFn", name="type_info",
+             orig_sig="fn type_info(&self, state: &state::TypeState) -> TypeInfo",
+             wrap=("impl DelFn {", "}"), sig="pub fn type_info(&self, state: &TypeState) -> (r: TypeInfo)",
+             desugar=["and_then"],
+             rewrites=[dict(**{"from": "crate::compiler::type_def::Details", "to": "Details", "optional": True, "why": "module path of the prelude Details"})],
+             ensures=[
+                 ("C12.del.local_drops_constant", "after `del(x.path)` on a variable the compiler no longer treats x as the constant it held before",
+                  "self.query.local_ident is Some ==> const_of(r.state, self.query.local_ident->Some_0.id) is None"),
+                 ("C12.del.frame", "no other variable's constant changes",
+                  "forall|id: u64| !(self.query.local_ident is Some && self.query.local_ident->Some_0.id == id) ==> #[trigger] const_of(r.state, id) == const_of(*state, id)"),
+             ],
+             safety_id="C12.del_type_info.safety"),
+    ],
+)
+
+UNITS["v_op_constant"] = dict(
+    prop=["C12"], tier="q", prelude=["interp.rs", "nodes.rs", "op.rs", "typestate.rs", "opconst.rs"], native_witness={"C12": ["constants"]},
+    fns=[
+        dict(id="is_number", file=OPRS, impl=None, name="is_number",
+             orig_sig="fn is_number(value: &Value) -> bool", sig="pub fn is_number(value: &Value) -> (r: bool)",
+             ensures=[("C12.is_number.spec", "is_number is true exactly for integers and floats", "r == spec_is_number(*value)")],
+             safety_id="C12.is_number.safety"),
+        dict(id="op_resolve_constant", file=OPRS, impl="impl Expression for Op", name="resolve_constant",
+             orig_sig="fn resolve_constant(&self, state: &TypeState) -> Option<Value>",
+             wrap=("impl Op {", "}"), sig="pub fn resolve_constant(&self, state: &TypeState) -> (r: Option<Value>)",
+             rewrites=[RW_USE_OPCODE],
+             ensures=[
+                 ("C12.op.constant_is_runtime_helper", "a binary operator is folded to a constant only for + - * / on two numeric constants, and the folded value is exactly what the runtime helper (the one `resolve` calls) returns for those operands",
+                  "r is Some ==> self.lhs.spec_const(*state) is Some && self.rhs.spec_const(*state) is Some && (self.opcode is Mul || self.opcode is Div || self.opcode is Add || self.opcode is Sub) && spec_is_number(self.lhs.spec_const(*state)->Some_0) && spec_is_number(self.rhs.spec_const(*state)->Some_0) && spec_arith(self.opcode, self.lhs.spec_const(*state)->Some_0, self.rhs.spec_const(*state)->Some_0) == Ok::<Value, ValueError>(r->Some_0)"),
+             ],
+             safety_id="C12.op_resolve_constant.safety"),
+        dict(id="op_resolve_arith", file=OPRS, impl="impl Expression for Op", name="resolve", orig_sig=SIG_RESOLVE,
+             wrap=("impl Op {", "}"), sig=VSIG,
+             desugar=["or_else", "map_err", "try_or"],
+             rewrites=[RW_USE_VALUE, RW_USE_OPCODE, RW_FALSE_INTO, RW_OK_INTO],
+             ensures=[
+                 ("C12.op.runtime_uses_same_helper", "at runtime + - * / evaluate both operands and return exactly that helper's result on their values (so a folded constant equals the runtime value whenever the operand constants equal the operand values)",
+                  "(self.opcode is Mul || self.opcode is Div || self.opcode is Add || self.opcode is Sub) && added(%s, %s) == 2 && outcome(nth(%s, %s, 0)) is Ok && outcome(nth(%s, %s, 1)) is Ok && spec_arith(self.opcode, outcome(nth(%s, %s, 0))->Ok_0, outcome(nth(%s, %s, 1))->Ok_0) is Ok ==> r == Ok::<Value, ExpressionError>(spec_arith(self.opcode, outcome(nth(%s, %s, 0))->Ok_0, outcome(nth(%s, %s, 1))->Ok_0)->Ok_0)" % ((PRE, POST) * 7)),
+             ],
+             safety_id="C12.op_resolve_arith.safety"),
+    ],
+)
